@@ -82,3 +82,117 @@ def diff(got, want):
 
 def total(matrix):
     return sum(n for row in matrix.values() for n in row.values())
+
+
+# ---------------------------------------------------------------------------------------------------------------
+# general form (audit extension): several input files, the options that select records, records without SM / DS
+# ---------------------------------------------------------------------------------------------------------------
+NOSM = '<no SM tag>'        # the column of records without a cell name; the property does not name it
+
+
+def classify(read, min_mq=50, dedup=True, ignore_mp=False, default_filter=False):
+    """-> 'count' | 'skip' | 'open' for one BAM record, from the property text and the meaning of the options:
+
+    read 1 only; QC-fail (rejected) never; duplicates never unless duplicate removal is switched off (dedup=False);
+    MAPQ >= min_mq (None: no threshold); mp present and != 'unique' never unless ignore_mp.
+    default_filter: the run was not given a threshold / a filter (get_binned_counts without filter_function). Read 1,
+    duplicate and QC-fail are still decided by the property; whether a record with a low MAPQ or an mp mark counts
+    there is left OPEN (nothing configures it), such a record may be counted once or not at all."""
+    if not read.is_read1:
+        return 'skip'
+    if read.is_qcfail:
+        return 'skip'
+    if dedup and read.is_duplicate:
+        return 'skip'
+    marked = read.has_tag('mp') and read.get_tag('mp') != 'unique'
+    if default_filter:
+        if marked or read.mapping_quality < 60:
+            return 'open'
+        return 'count'
+    if min_mq is not None and read.mapping_quality < min_mq:
+        return 'skip'
+    if marked and not ignore_mp:
+        return 'skip'
+    return 'count'
+
+
+def expected_general(paths, bin_size, min_mq=50, dedup=True, ignore_mp=False, key_tags=None, skip_contigs=None,
+                     default_filter=False, aliases=None, contigs=None):
+    """-> {'exact': {key: {cell: n}}, 'open': {key: {cell: n}}, 'floating': {(tag values.., contig, cell): n},
+           'n_exact', 'n_open', 'n_floating', 'cells': set of cell names seen in SM tags}
+
+    exact     records that must be counted once, in bin (site // bin_size) * bin_size of their contig
+    open      records that may be counted once or not at all (see classify), by bin
+    floating  countable records WITHOUT a DS tag: counted once, for their cell, on their contig; the bin is not stated
+    Sites outside the contig are not generated for this function.  skip_contigs / contigs: contigs excluded from / the
+    only contigs included in the run.  aliases: one name per path, the cell becomes 'alias|cell' (prefixed entry point)."""
+    exact, opn, floating = {}, {}, {}
+    n = {'exact': 0, 'open': 0, 'floating': 0}
+    cells = set()
+    skip = set(skip_contigs or ())
+    for i, path in enumerate(paths):
+        with pysam.AlignmentFile(path) as f:
+            lengths = dict(zip(f.references, f.lengths))
+            for read in f.fetch(until_eof=True):
+                if read.is_unmapped:
+                    continue
+                contig = read.reference_name
+                if contig in skip or (contigs is not None and contig not in contigs):
+                    continue
+                c = classify(read, min_mq, dedup, ignore_mp, default_filter)
+                if c == 'skip':
+                    continue
+                cell = read.get_tag('SM') if read.has_tag('SM') else NOSM
+                if read.has_tag('SM'):
+                    cells.add(cell)
+                if aliases is not None:
+                    cell = f'{aliases[i]}|{cell}'
+                tagv = tuple(read.get_tag(t) if read.has_tag(t) else None for t in (key_tags or ()))
+                if not read.has_tag('DS'):
+                    if c != 'count':
+                        raise ValueError('generator: open records without DS are not supported')
+                    k = tagv + (contig, cell)
+                    floating[k] = floating.get(k, 0) + 1
+                    n['floating'] += 1
+                    continue
+                site = int(read.get_tag('DS'))
+                if not (0 <= site < lengths[contig]):
+                    raise ValueError('generator: site outside the contig')
+                key = tagv + (contig, (site // bin_size) * bin_size)
+                tgt = exact if c == 'count' else opn
+                row = tgt.setdefault(key, {})
+                row[cell] = row.get(cell, 0) + 1
+                n['exact' if c == 'count' else 'open'] += 1
+    return {'exact': exact, 'open': opn, 'floating': floating, 'n_exact': n['exact'], 'n_open': n['open'],
+            'n_floating': n['floating'], 'cells': cells}
+
+
+def judge_general(got, want, n_tags):
+    """got: {key without bin end: {cell: n}} with the columns of unnamed records already mapped to NOSM.
+    -> (under, over): lists of (key, cell, got, allowed_min, allowed_max) / for floating records
+    (('floating', tag values.., contig), cell, got_residual, want, want)"""
+    under, over = [], []
+    exact, opn, floating = want['exact'], want['open'], want['floating']
+    if opn and floating:
+        raise ValueError('open and floating records in one run are not supported')
+    residual = {}
+    for key in sorted(set(got) | set(exact), key=repr):
+        g, w, o = got.get(key, {}), exact.get(key, {}), opn.get(key, {})
+        for cell in sorted(set(g) | set(w)):
+            a, lo = g.get(cell, 0), w.get(cell, 0)
+            hi = lo + o.get(cell, 0)
+            if a < lo:
+                under.append((key, cell, a, lo, hi))
+            elif a > hi:
+                if floating:
+                    fk = tuple(key[:n_tags]) + (key[n_tags], cell)
+                    residual[fk] = residual.get(fk, 0) + (a - hi)
+                else:
+                    over.append((key, cell, a, lo, hi))
+    for fk in sorted(set(residual) | set(floating), key=repr):
+        a, b = residual.get(fk, 0), floating.get(fk, 0)
+        if a < b:
+            under.append((('records-without-DS',) + fk[:-1], fk[-1], a, b, b))
+        elif a > b:
+            over.append((('records-without-DS',) + fk[:-1], fk[-1], a, b, b))
+    return under, over
